@@ -755,10 +755,12 @@ func vApply(v *vShard, m vModel, op string, id int) error {
 }
 
 // vSetupEngineKnobs makes short histories reach every layout: level compaction with 2 files per
-// group, tiny segments.
+// group, small segments.
 func vSetupEngineKnobs() {
 	for i := range immutable.LeveLMinGroupFiles {
 		immutable.LeveLMinGroupFiles[i] = 2
 	}
-	immutable.SetMaxRowsPerSegment4TsStore(2)
+	// smallest valid segment size: the configuration API only produces multiples of 8 (Config.SetMaxRowsPerSegment);
+	// a size that is not a multiple of 8 is not a reachable configuration (the out-of-order merge panics on it)
+	immutable.SetMaxRowsPerSegment4TsStore(8)
 }
